@@ -214,3 +214,109 @@ Print Assumptions C06_fit_fb_forced_value.
 Print Assumptions C06_fit_fb_unforced_value.
 Print Assumptions C06_fit_fb_esn_forced_value.
 Print Assumptions C06_fit_fb_esn_eq_model.
+
+(* ================================================================================================================ *)
+(* UNBOUNDED facts about the staging computed by get_offline_subgraphs (proofs/FitSem_staging_proofs.v), for every graph
+   of ANY size whose node list is a duplicate-free topological order of its edges:
+     wf_dagb g  :=  scanning g_nodes from the left, every node is new and all its parents have been seen already
+   (Model.nodes is such an order; feedback connections are not edges).  `train_sets g [] (map s_nodes stg)` are the sets of
+   offline nodes that Model.fit / build_forward_sumodels trains stage after stage (the `offl` of run_stage).
+   C06_staging_valid_full_statement above stays open; these are the structural parts of it. *)
+From RV Require Import proofs.FitSem_staging_proofs.
+
+(* the `while trained != offlines` loop stops within the fuel of the model (one more than the number of nodes; it needs at
+   most one iteration per offline node), and a staging is returned exactly when the model has an offline node *)
+Theorem C06_staging_terminates (g : graph) :
+  wf_dagb g = true ->
+  (exists subs, stages_loop g (S (length (g_nodes g))) (g_nodes g) [] [] [] = Some subs) /\
+  (get_offline_subgraphs g = None <-> filter (offline g) (g_nodes g) = []).
+Proof. exact (staging_terminates g). Qed.
+
+(* every offline node of the model is trained in exactly one stage, nothing else is, and no node is trained twice *)
+Theorem C06_staging_trains_each_once (g : graph) (stg : list stage) :
+  wf_dagb g = true -> get_offline_subgraphs g = Some stg ->
+  let T := train_sets g [] (map s_nodes stg) in
+  NoDup (concat T) /\ (forall v, In v (concat T) <-> (In v (g_nodes g) /\ offline g v = true)).
+Proof. exact (fun H => staging_trains_each_once g H stg). Qed.
+
+(* stage monotonicity: an offline (strict) ancestor of a node trained in stage j is trained in a stage i < j *)
+Theorem C06_staging_respects_ancestors (g : graph) (stg : list stage) :
+  wf_dagb g = true -> get_offline_subgraphs g = Some stg ->
+  let T := train_sets g [] (map s_nodes stg) in
+  forall j Tb a b, nth_error T j = Some Tb -> In b Tb -> anc g a b -> offline g a = true ->
+    exists i Ta, (i < j)%nat /\ nth_error T i = Some Ta /\ In a Ta.
+Proof. exact (fun H => staging_respects_ancestors g H stg). Qed.
+
+(* every (strict) ancestor of a node trained in stage j is listed, and not trained, in some stage i <= j: it runs there as
+   a forward node (an offline one with the parameters fitted earlier, by the previous theorem) *)
+Theorem C06_staging_ancestors_run (g : graph) (stg : list stage) :
+  wf_dagb g = true -> get_offline_subgraphs g = Some stg ->
+  let T := train_sets g [] (map s_nodes stg) in
+  forall j Tb a b, nth_error T j = Some Tb -> In b Tb -> anc g a b ->
+    exists i s Ti, (i <= j)%nat /\ nth_error stg i = Some s /\ nth_error T i = Some Ti /\ In a (s_nodes s) /\ ~ In a Ti.
+Proof. exact (fun H => staging_ancestors_run g H stg). Qed.
+
+(* non-vacuity: 7 nodes, two readouts, a shortcut and a fan-in; the hypotheses hold and the two stages are as expected *)
+Example C06_example_staging_unbounded :
+  wf_dagb g_seven = true /\
+  (exists stg, get_offline_subgraphs g_seven = Some stg /\
+               map s_nodes stg = [[0; 1; 2; 4]; [2; 3; 5; 6]] /\ train_sets g_seven [] (map s_nodes stg) = [[2]; [6]]) /\
+  anc g_seven 2 6 /\ anc g_seven 4 6.
+Proof.
+  split; [vm_compute; reflexivity|]. split; [eexists; split; [vm_compute; reflexivity|split; vm_compute; reflexivity]|].
+  split.
+  - apply (anc_step _ 2 5 6); [apply (anc_step _ 2 3 5); [apply anc_edge|]|]; simpl; tauto.
+  - apply (anc_step _ 4 5 6); [apply anc_edge|]; simpl; tauto.
+Qed.
+
+(* B. chains n0 >> n1 >> ... >> nk of ANY length k with ANY set of offline nodes among n1..nk (deep ESNs
+   reservoir >> ridge >> reservoir >> ridge ...): the staging in closed form -- one stage per offline node b, listing the
+   nodes from the previous offline node (or the entry node) up to b, the edges among them, and the single relation b-1 -> b *)
+Theorem C06_staging_chain_closed_form (k : nat) (off : list nat) :
+  mem 0 off = false -> chain_offs k off <> [] ->
+  get_offline_subgraphs (chain k off) = Some (chain_staging k off).
+Proof. exact (chain_get_offline_subgraphs k off). Qed.
+Example C06_example_chain :
+  wf_dagb (chain 6 [2; 3; 5]) = true /\ chain_offs 6 [2; 3; 5] = [2; 3; 5] /\
+  map s_nodes (chain_staging 6 [2; 3; 5]) = [[0; 1; 2]; [2; 3]; [3; 4; 5]] /\
+  map s_rel (chain_staging 6 [2; 3; 5]) = [[(1, [2])]; [(2, [3])]; [(4, [5])]].
+Proof. repeat split; vm_compute; reflexivity. Qed.
+
+(* ... and that staging is VALID: the full statement C06_staging_valid_full_statement restricted to the family of chains, for
+   every length k and every labelling (the entry node n0 is fed by the data, so it is not a readout; at least one of
+   n1..nk is offline).  Proof: Model.fit is executed symbolically stage by stage, by induction over the offline nodes. *)
+Theorem C06_staging_valid_chains (k : nat) (off : list nat) :
+  mem 0 off = false -> chain_offs k off <> [] ->
+  let g := chain k off in
+  exists stg, get_offline_subgraphs g = Some stg /\
+              valid_stagingb g (filter (is_input g) (g_nodes g)) (filter (offline g) (g_nodes g)) stg = true.
+Proof. exact (chain_valid k off). Qed.
+
+(* with C06_fit_valid_staging: on a chain of any length, for ANY forward nodes, ANY offline learners and ANY data given to
+   the entry node / targets given to the offline nodes, Model.fit with the staging the code computes raises nothing and
+   gives every offline node exactly the parameters of the explicit node-by-node procedure *)
+Theorem C06_fit_chains (D P : Type) (a_run : nat -> list D -> D) (a_fit : nat -> list D -> D -> P)
+        (a_pred : nat -> P -> list D -> D) (d0 : D) (k : nat) (off : list nat) (X0 Y0 : list (nat * D)) :
+  let g := chain k off in
+  mem 0 off = false -> chain_offs k off <> [] ->
+  map fst X0 = filter (is_input g) (g_nodes g) -> map fst Y0 = filter (offline g) (g_nodes g) ->
+  exists stg ps, get_offline_subgraphs g = Some stg /\
+                 fit_with_staging D P a_run a_fit a_pred g X0 Y0 stg = Some ps /\
+                 forall v, In v (g_nodes g) -> offline g v = true ->
+                           exists p, lookup ps v = Some p /\ lookup (explicit_fit D P a_run a_fit a_pred g X0 Y0) v = Some p.
+Proof. exact (chain_fit_explicit D P a_run a_fit a_pred d0 k off X0 Y0). Qed.
+(* non-vacuity: a 9-node deep ESN with 4 readouts, two of them adjacent; hypotheses hold; 4 stages *)
+Example C06_example_chain_valid :
+  mem 0 [2; 3; 5; 8] = false /\ chain_offs 8 [2; 3; 5; 8] = [2; 3; 5; 8] /\
+  filter (is_input (chain 8 [2; 3; 5; 8])) (g_nodes (chain 8 [2; 3; 5; 8])) = [0] /\
+  map s_nodes (chain_staging 8 [2; 3; 5; 8]) = [[0; 1; 2]; [2; 3]; [3; 4; 5]; [5; 6; 7; 8]] /\
+  default_valid (chain 8 [2; 3; 5; 8]) = true.
+Proof. repeat split; vm_compute; reflexivity. Qed.
+
+Print Assumptions C06_staging_terminates.
+Print Assumptions C06_staging_trains_each_once.
+Print Assumptions C06_staging_respects_ancestors.
+Print Assumptions C06_staging_ancestors_run.
+Print Assumptions C06_staging_chain_closed_form.
+Print Assumptions C06_staging_valid_chains.
+Print Assumptions C06_fit_chains.
